@@ -241,6 +241,29 @@ def marker_rules(facts, rep, w, prefix=None, only=None):
                                                 special = True
                                     if not special:
                                         outside.append(lead)
+                        # ... and it names the path, the whole path: the marker string is literal pieces around ONE argument piece that is
+                        # the path itself (at most without its leading '/').  A name clipped to a maximal length, or put together from
+                        # parts, lets two different paths share one marker: re-creating one un-hides the other
+                        partial = []
+                        for x in walk(norm(ov.inter.inline_ret(t, depth=3, pred=own_))):
+                            if x[0] == "call" and isinstance(x[1], str) and sname(x[1]) == "join" and len(x[2]) == 2 and x[2][1][0] != "str":
+                                pcs = fmt_pieces(x[2][1]) or []
+                                argp = [p_[1] for p_ in pcs if p_[0] == "arg"]
+                                whole = False
+                                if len(argp) == 1:
+                                    a_ = norm(argp[0])
+                                    while a_[0] == "call" and a_[1] in ("Deref::deref", "String::as_str", "AsRef::as_ref") and a_[2]:
+                                        a_ = norm(a_[2][0])
+                                    if a_[0] == "call" and a_[1] == "Index::index" and len(a_[2]) == 2 and a_[2][1][0] == "agg" and \
+                                            a_[2][1][1].endswith("RangeFrom") and dict(a_[2][1][3]).get("start") == ("int", 1):
+                                        a_ = norm(a_[2][0])
+                                    whole = a_[0] == "arg"
+                                if pcs and not whole:
+                                    partial.append(", ".join(fmt(p_)[:30] for p_ in argp) or "no argument")
+                        n += 1
+                        rep.ob("R10.5", root_.id, "%s in %s: the marker name contains the whole path" % (nm, opn), not partial, "" if not partial else
+                               "the marker string is built from %s instead of the path as a whole: different paths can map to one marker, so "
+                               "re-creating (or removing) one of them un-hides (or hides) the other" % partial[0], s.line)
                         n += 1
                         rep.ob("R10.5", root_.id, "%s in %s: the marker lies inside the reserved directory" % (nm, opn), not outside,
                                "" if not outside else
